@@ -6,8 +6,8 @@
 set -u
 export GOFLAGS=-mod=mod GOPROXY=off GOSUMDB=off GOTOOLCHAIN=local; unset GOWORK
 P=$1; K=$2; DEMO=$3; DDIR=$4; PAT=$5; SUITE=${6:-suite}
-OUT=/tmp/seedout/$P
-WT=/tmp/cs/$P-$K
+OUT=${SEEDOUT:-/tmp/seedout}/$P
+WT=/tmp/cs/$P-$K-$$
 rm -rf $WT; mkdir -p /tmp/cs
 git -C /repo worktree add -q --detach $WT HEAD || exit 2
 cd $WT
